@@ -274,4 +274,12 @@ def decode (bs : List Nat) : Option Frame :=
     | [] => none
   | _ => none
 
+/-! ### bit errors (used to state the CRC guarantee) -/
+
+/-- Flips bit `p % 8` of byte `p / 8` (no effect if `p / 8` is out of range). -/
+def flipBit (bs : List Nat) (p : Nat) : List Nat :=
+  match bs[p / 8]? with
+  | some b => bs.set (p / 8) (b ^^^ 2 ^ (p % 8))
+  | none => bs
+
 end Uflow.Codec
